@@ -57,6 +57,33 @@ SHAPES = {'rect': 'rect', 'ellipse': 'ellipse', 'custom': 'custom-shape', 'circl
 SHAPES_UNLISTED = ('line', 'g')        # shapes with text that odf2moinmoin's CONTAINER_TAGS (af61005) does not list
 SAFE = set(u'abcdefghijklmnopqrstuvwxyzABCDEFGHIJKLMNOPQRSTUVWXYZ0123456789_ .#:/-@')
 
+# The style names every office suite ships with its default template (their DISPLAY names, as a user sees them in the
+# style list - taken from the producers' templates, not from the converters), and the ways such a name is spelled in a
+# text:style-name / style:name attribute: a blank is not allowed in an NCName, so ODF encodes it as _20_; producers and
+# hand-written documents also write '.' where the encoding has '_' (the converters map '.' onto '_' because a '.' cannot
+# stand in a CSS class name), leave the blank as it is, or drop / replace it.
+DISPLAY_P = [u'Heading %d' % i for i in range(1, 11)] + [
+    u'Heading', u'Text body', u'Preformatted Text', u'Addressee', u'Sender', u'Caption', u'List Heading', u'List Contents',
+    u'Table Heading', u'Table Contents', u'Title', u'Subtitle', u'Quotations', u'Standard', u'First line indent', u'Horizontal Line']
+DISPLAY_S = [u'Emphasis', u'Strong Emphasis', u'Citation', u'Variable', u'Definition', u'Teletype', u'Source Text', u'Example',
+             u'User Entry', u'Internet link', u'Footnote Characters']
+BLANKS = [u'_20_', u'.20.', u'.20_', u'_20.', u' ', u'_', u'.', u'']
+
+
+def spellings(display, raw_blank=True):
+    """every spelling of one display name: each way of writing the blank (the same way at every blank), and - a name
+       without a blank has no such variants - the name with a '.' / '_' appended; in document order, without repeats"""
+    out = []
+    for b in BLANKS:
+        if b == u' ' and not raw_blank:
+            continue
+        nm = display.replace(u' ', b)
+        if nm not in out:
+            out.append(nm)
+    for tail in (u'.', u'_', u'.1'):
+        out.append(display.replace(u' ', u'_20_') + tail)
+    return out
+
 
 class Gen(object):
     """seeded generator; every text run gets a distinct word so that order and completeness are sharp"""
@@ -111,6 +138,19 @@ class Gen(object):
         self.n += 1
         return u'N%d%s' % (self.n, r.choice([u'', u'.x', u'_y']))
 
+    def spelled(self, display, raw_blank=True):
+        """a style name of the producers' default templates in one of its spellings (mixed: each blank its own way)"""
+        r = self.rng
+        self.feat.add('style-name-spelling')
+        nm = r.choice(display)
+        if r.random() < 0.7:
+            return r.choice(spellings(nm, raw_blank))
+        parts = nm.split(u' ')
+        out = parts[0]
+        for p in parts[1:]:
+            out += r.choice([b for b in BLANKS if raw_blank or b != u' ']) + p
+        return out
+
     # ---------------------------------------------------------------- styles
     def styles(self):
         r = self.rng
@@ -119,6 +159,9 @@ class Gen(object):
                                     ('table-cell', self.cellstyles, None, r.randint(0, 2))):
             for _ in range(k):
                 nm = self.name(pool)
+                if pool is not None and r.random() < 0.2:
+                    # declared under a spelling of a default-template name (no raw blank: see name())
+                    nm = self.spelled(DISPLAY_P if fam == 'paragraph' else DISPLAY_S, raw_blank=False)
                 if nm in store:
                     continue
                 store.append(nm)
@@ -144,7 +187,7 @@ class Gen(object):
         if x < 0.8 and self.pstyles:
             return r.choice(self.pstyles)
         if x < 0.9:
-            return r.choice(SPECIAL_P)
+            return r.choice(SPECIAL_P) if r.random() < 0.4 else self.spelled(DISPLAY_P)
         return self.name(None, 0.8)          # a style name that is not declared anywhere
 
     def sstyle(self):
@@ -155,7 +198,7 @@ class Gen(object):
         if x < 0.75 and self.sstyles:
             return r.choice(self.sstyles)
         if x < 0.88:
-            return r.choice(SPECIAL_S)
+            return r.choice(SPECIAL_S) if r.random() < 0.4 else self.spelled(DISPLAY_S)
         return self.name(None, 0.8)
 
     # ---------------------------------------------------------------- inline
